@@ -143,6 +143,7 @@ pub fn gen(args: &Args, out: &mut dyn Write) {
     let thorough = args.tier == "thorough";
     let n = if thorough { 400_000 } else { 4_000 };
     let mut rng = Rng::new(args.seed ^ 0xA461E);
+    let mut r3 = Rng::new(args.seed ^ 0x7816);
     let mut k = 0;
     let hx = |x: f32| format!("{:08x}", x.to_bits());
     let mut emit = |out: &mut dyn Write, mut v: Value| {
@@ -187,6 +188,13 @@ pub fn gen(args: &Args, out: &mut dyn Write) {
         emit(out, json!({"op": "arith", "ab": hx(f(&mut rng)), "bb": hx(f(&mut rng)), "cb": hx(f(&mut rng)),
                          "kf": *rng.pick(&[2i64, 3, -2, 4, -5, 7])}));
         emit(out, json!({"op": "trig", "ab": hx(((rng.unit_f64() - 0.5) * 4000.0) as f32)}));
+        if i % 4 == 2 {
+            // angles of 2^12 .. 2^100 degrees (up to and far beyond the size at which every f32 is a whole number of
+            // quarter turns), and exact multiples of 90 degrees of that size: still a point on the unit circle
+            let k = r3.range(12, 100) as i32;
+            let a = if i % 8 == 2 { 90.0 * r3.range(1 << 16, 1 << 24) as f64 } else { (1.0 + r3.unit_f64()) * 2f64.powi(k) };
+            emit(out, json!({"op": "trig", "ab": hx(a as f32 * if r3.chance(1, 2) { -1.0 } else { 1.0 })}));
+        }
         // vectors over several magnitudes, axis-aligned and near-axis ones
         // (every 4th far below 1e-6 - "near-zero" yet non-zero -, every 4th around 1e3..1e6)
         // (every 8th: lengths of 1e-20..1e-19, whose SQUARES are subnormal numbers - still precise to 1e-4)
